@@ -9,8 +9,10 @@ Exit status: 0 = held on everything explored (possibly KNOWN-FINDING lines),
 VIOLATION line in that case.
 """
 import argparse
+import atexit
 import json
 import os
+import shutil
 import subprocess
 import sys
 import tempfile
@@ -45,8 +47,8 @@ CHECKS = {
         'title': 'diagnostics never serve stale values',
         'batches': [
             {'machine': 'diag', 'profile': 'default',
-             'runs': {'quick': 40000, 'thorough': 1500000},
-             'block': {'quick': 1250, 'thorough': 5000},
+             'runs': {'quick': 32000, 'thorough': 1200000},
+             'block': {'quick': 1000, 'thorough': 5000},
              'wall': {'quick': 80, 'thorough': 1700}},
         ]},
     'C10': {
@@ -65,11 +67,29 @@ CHECKS = {
 DETERMINISM_SAMPLE = {'heap': 64, 'diag': 24, 'mm': 4}
 
 
+_PYC_DIR = []
+
+
+def pyc_dir():
+  """Per-invocation bytecode cache outside /repo and /verif (removed at exit).
+
+  Every simulated run re-imports the modules under test; without a bytecode
+  cache each import recompiles the sources.  A fresh directory per invocation
+  means a stale entry can never be picked up across edits of the tree.
+  """
+  if not _PYC_DIR:
+    d = tempfile.mkdtemp(prefix='verif_pyc.')
+    _PYC_DIR.append(d)
+    atexit.register(shutil.rmtree, d, ignore_errors=True)
+  return _PYC_DIR[0]
+
+
 def worker_env(hashseed):
   env = dict(os.environ)
   env.update({'PYTHONHASHSEED': str(hashseed), 'OPENBLAS_NUM_THREADS': '1',
               'OMP_NUM_THREADS': '1', 'MKL_NUM_THREADS': '1',
-              'PYTHONDONTWRITEBYTECODE': '1'})
+              'PYTHONPYCACHEPREFIX': pyc_dir()})
+  env.pop('PYTHONDONTWRITEBYTECODE', None)
   env.setdefault('VERIF_WORKER_TIMEOUT', '900')
   return env
 
